@@ -157,6 +157,9 @@ def check_output_table(ctx, chk, rule, f, roles_of_name, what_measured, extra_un
         role = None
         if len(names) == 1:
             role = roles_of_name.get(names[0])
+        if role is None and want_role is not None:
+            chk.indeterminate(rule, where_of(f, arg), "column %d under label %r: %s cannot be traced to the level / measured / simulated arrays" % (i, lab, ast.unparse(core)[:60]))
+            continue
         chk.ob(rule, want_role is not None and role == want_role, where_of(f, arg),
                "column %d: label %r over %s (%s)" % (i, lab, ast.unparse(core), role or "unknown role"),
                "label and column have the same role (level / measured / simulated)",
